@@ -103,13 +103,14 @@ def list_of_generator(generator):
 def take_first(generator, n):
     """Returns the first n values in the generator."""
     ret = []
-    for i, task in enumerate(generator):
-        value = yield task
-        if value is END_OF_GENERATOR:
-            continue
-        ret.append(value)
-        if i == n - 1:
-            break
+    if len(ret) < n:
+        for task in generator:
+            value = yield task
+            if value is END_OF_GENERATOR:
+                continue
+            ret.append(value)
+            if len(ret) >= n:
+                break
     return ret
 
 
